@@ -6,6 +6,11 @@
    (one call of _write_stream_frame / _write_reset_stream_frame / _write_stop_sending_frame per step; the loop
    of the `fixes` branch: RESET_STREAM and STOP_SENDING are skipped while the stream is blocked by the
    stream-count limit) on top of the C10 sender.
+   Transport parameters come in two transcriptions: [OParams] is _parse_transport_parameters as it was up to
+   the repair of finding C06-F1 (each present value overwrites the field, streams untouched); [OParamsP] is the
+   repaired function (an absent limit is 0; a value below the one held is PROTOCOL_VIOLATION when 0-RTT was
+   accepted; when 0-RTT was not accepted every existing stream is put back on the blocked lists until the handshake
+   completes).  The tie probes the source and feeds the one that the tree contains.
    No proofs in this file. *)
 From AQ Require Import lib.Base lib.Tok model.RangeSet model.StreamSend.
 
@@ -99,6 +104,7 @@ Definition for_send (c : conn) (sid : Z) : option (conn * strm) :=
    limits is C07's; it is assumed to pass here) *)
 Definition STREAM_STATE_ERROR : Z := 5.
 Definition FRAME_ENCODING_ERROR : Z := 7.
+Definition PROTOCOL_VIOLATION : Z := 10.
 
 Definition from_peer (c : conn) (sid : Z) : option (conn * strm) :=
   match find_strm sid (c_streams c) with
@@ -130,6 +136,12 @@ Definition unblock (c : conn) (uni : bool) : conn :=
     mkConn (c_client c) (c_max_data c) (c_used c) (c_msd_bl c) (c_msd_br c) (c_msd_uni c)
            (c_ms_bidi c) (c_ms_uni c) l blk (c_blk_uni c).
 
+(* how the repaired _parse_transport_parameters is entered *)
+Inductive pmode :=
+| PTicket      (* from_session_ticket=True: restoring the parameters remembered for 0-RTT *)
+| PAccepted    (* handshake parameters, tls.early_data_accepted is True *)
+| PRejected.   (* handshake parameters, 0-RTT not accepted (rejected, or not attempted) *)
+
 Inductive fop :=
 | OSend (sid : Z) (data : list Z) (fin : bool)        (* send_stream_data *)
 | OReset (sid : Z) (code : Z)                         (* reset_stream *)
@@ -146,13 +158,43 @@ Inductive fop :=
 | OPeerOpen (sid : Z)                                 (* any other peer frame that creates the stream *)
 | OStop (sid : Z)                                     (* stop_stream *)
 | OGetStop (sid : Z)                                  (* one _write_stop_sending_frame call *)
-| OStopDeliv (sid : Z) (acked : bool).                (* delivery outcome of a STOP_SENDING frame *)
+| OStopDeliv (sid : Z) (acked : bool)                 (* delivery outcome of a STOP_SENDING frame *)
+| OParamsP (m : pmode) (md msd_bl msd_br msd_uni ms_bidi ms_uni : option Z).   (* repaired _parse_transport_parameters *)
 
 Definition orz (o : option Z) (d : Z) : Z := match o with Some v => v | None => d end.
 
 (* the max_offset argument computed by the stream loop *)
 Definition max_offset (c : conn) (t : strm) : Z :=
   Z.min (s_highest (t_send t) + c_max_data c - c_used c) (t_msdr t).
+
+(* the six limits replaced, everything else kept *)
+Definition with_limits (c : conn) (md bl br un sb su : Z) : conn :=
+  mkConn (c_client c) md (c_used c) bl br un sb su (c_streams c) (c_blk_bidi c) (c_blk_uni c).
+
+(* repaired _parse_transport_parameters, not accepted: every stream held in _streams is marked blocked and the two
+   blocked lists are rebuilt from _streams in creation order *)
+Definition blocked_again (t : strm) : strm := mkStrm (t_id t) true (t_msdr t) (t_send t) (t_stop t).
+Definition reblock (c : conn) : conn :=
+  mkConn (c_client c) (c_max_data c) (c_used c) (c_msd_bl c) (c_msd_br c) (c_msd_uni c) (c_ms_bidi c) (c_ms_uni c)
+         (map blocked_again (c_streams c))
+         (map t_id (filter (fun t => negb (sid_uni (t_id t))) (c_streams c)))
+         (map t_id (filter (fun t => sid_uni (t_id t)) (c_streams c))).
+
+(* the store loop of the repaired function: the limits are taken one at a time (absent = 0); with 0-RTT accepted the
+   first value below the one held raises, the earlier ones are already stored *)
+Definition store_limits (chk : bool) (c : conn) (md bl br un sb su : Z) : fout * conn :=
+  if chk && (md <? c_max_data c) then (FQErr PROTOCOL_VIOLATION, c) else
+  let c1 := with_limits c md (c_msd_bl c) (c_msd_br c) (c_msd_uni c) (c_ms_bidi c) (c_ms_uni c) in
+  if chk && (bl <? c_msd_bl c) then (FQErr PROTOCOL_VIOLATION, c1) else
+  let c2 := with_limits c md bl (c_msd_br c) (c_msd_uni c) (c_ms_bidi c) (c_ms_uni c) in
+  if chk && (br <? c_msd_br c) then (FQErr PROTOCOL_VIOLATION, c2) else
+  let c3 := with_limits c md bl br (c_msd_uni c) (c_ms_bidi c) (c_ms_uni c) in
+  if chk && (un <? c_msd_uni c) then (FQErr PROTOCOL_VIOLATION, c3) else
+  let c4 := with_limits c md bl br un (c_ms_bidi c) (c_ms_uni c) in
+  if chk && (sb <? c_ms_bidi c) then (FQErr PROTOCOL_VIOLATION, c4) else
+  let c5 := with_limits c md bl br un sb (c_ms_uni c) in
+  if chk && (su <? c_ms_uni c) then (FQErr PROTOCOL_VIOLATION, c5) else
+  (FOk, with_limits c md bl br un sb su).
 
 Definition fstep (c : conn) (op : fop) : fout * conn :=
   match op with
@@ -261,6 +303,13 @@ Definition fstep (c : conn) (op : fop) : fout * conn :=
       | None => (FNoStream, c)
       | Some _ => (FOk, if k then c else with_streams c (upd_strm sid (set_stop true) (c_streams c)))
       end
+  | OParamsP m md bl br un sb su =>
+      let r := store_limits (match m with PAccepted => true | _ => false end) c
+                 (orz md 0) (orz bl 0) (orz br 0) (orz un 0) (orz sb 0) (orz su 0) in
+      match m with
+      | PRejected => (fst r, reblock (snd r))
+      | _ => r
+      end
   end.
 
 Definition frun (c : conn) (ops : list fop) : conn := fold_left (fun c op => snd (fstep c op)) ops c.
@@ -274,6 +323,7 @@ Definition frun (c : conn) (ops : list fop) : conn := fold_left (fun c op => snd
      10 sid acked a b fin  STREAM delivery       11 sid acked  RESET_STREAM delivery    12 sid  peer opens
      13 n sid1..sidn   observe (not an operation)
      14 sid  stop_stream      15 sid  _write_stop_sending_frame      16 sid acked  STOP_SENDING delivery
+     18 mode (opt)x6  transport parameters, repaired function (mode 0 ticket | 1 0-RTT accepted | 2 not accepted)
      17   credit observation (not an operation): prints used max_data; the tie emits it before EVERY
           _write_stream_frame call, so the counter is compared between any two frames of one transmit
    output per op: outcome (0 ok | 1 sender-result.. | 2 max_offset sender-result.. | 3 ValueError |
@@ -323,6 +373,10 @@ Definition parse_op (ops : list Z) : option (fop * list Z) :=
   | 14 :: sid :: t => Some (OStop sid, t)
   | 15 :: sid :: t => Some (OGetStop sid, t)
   | 16 :: sid :: k :: t => Some (OStopDeliv sid (z2b k), t)
+  | 18 :: m :: t =>
+      let '(a, t) := tk_opt t in let '(b, t) := tk_opt t in let '(c, t) := tk_opt t in
+      let '(d, t) := tk_opt t in let '(e, t) := tk_opt t in let '(f, t) := tk_opt t in
+      Some (OParamsP (if m =? 0 then PTicket else if m =? 1 then PAccepted else PRejected) a b c d e f, t)
   | _ => None
   end.
 
